@@ -3,6 +3,8 @@ package chk
 // Additional narrow rules added after the second round of seeded changes.
 
 import (
+	"sort"
+	"go/ast"
 	"fmt"
 	"go/constant"
 	"go/token"
@@ -1712,4 +1714,156 @@ func storageFromField(v ssa.Value, prefix string, depth int) bool {
 		return storageFromField(x.X, prefix, depth+1)
 	}
 	return false
+}
+
+// ruleSpecTable (T-SPEC) — a table that transcribes a table of the standard equals the standard's values
+// (embedded here). intLiteralTable reads `var name = map[K]V{…}` / `[]T{…}` / a local `name := [][]uint{…}`.
+func ruleSpecTable(c *Ctx, r *Report, pkg, fn, name string, want [][]int64, what string) {
+	key := pkg + "." + name
+	p := c.Pkg(pkg)
+	if p == nil {
+		r.Undecided("T-SPEC", key, "", "package not found")
+		return
+	}
+	var lit *ast.CompositeLit
+	var pos token.Pos
+	for _, file := range p.Syntax {
+		ast.Inspect(file, func(n ast.Node) bool {
+			switch x := n.(type) {
+			case *ast.FuncDecl:
+				if fn == "" {
+					return false
+				}
+				return x.Name.Name == fn
+			case *ast.ValueSpec:
+				for i, id := range x.Names {
+					if id.Name == name && i < len(x.Values) {
+						if cl, ok := x.Values[i].(*ast.CompositeLit); ok {
+							lit, pos = cl, cl.Pos()
+						}
+					}
+				}
+			case *ast.AssignStmt:
+				for i, l := range x.Lhs {
+					if id, ok := l.(*ast.Ident); ok && id.Name == name && i < len(x.Rhs) {
+						if cl, ok := x.Rhs[i].(*ast.CompositeLit); ok {
+							lit, pos = cl, cl.Pos()
+						}
+					}
+				}
+			}
+			return true
+		})
+	}
+	if lit == nil {
+		r.Undecided("T-SPEC", key, "", "table literal not found")
+		return
+	}
+	val := func(e ast.Expr) (int64, bool) {
+		tv, ok := p.TypesInfo.Types[e]
+		if !ok || tv.Value == nil {
+			return 0, false
+		}
+		v, ok := constant.Int64Val(constant.ToInt(tv.Value))
+		return v, ok
+	}
+	var got [][]int64
+	for _, e := range lit.Elts {
+		switch x := e.(type) {
+		case *ast.KeyValueExpr:
+			k, ok1 := val(x.Key)
+			v, ok2 := val(x.Value)
+			if !ok1 || !ok2 {
+				r.Undecided("T-SPEC", key, c.Pos(pos), "non-constant table entry")
+				return
+			}
+			got = append(got, []int64{k, v})
+		case *ast.CompositeLit:
+			var row []int64
+			for _, y := range x.Elts {
+				v, ok := val(y)
+				if !ok {
+					r.Undecided("T-SPEC", key, c.Pos(pos), "non-constant table entry")
+					return
+				}
+				row = append(row, v)
+			}
+			got = append(got, row)
+		default:
+			v, ok := val(e)
+			if !ok {
+				r.Undecided("T-SPEC", key, c.Pos(pos), "non-constant table entry")
+				return
+			}
+			got = append(got, []int64{v})
+		}
+	}
+	sortRows := func(rows [][]int64) {
+		sort.Slice(rows, func(i, j int) bool { return rows[i][0] < rows[j][0] })
+	}
+	if _, isMap := p.TypesInfo.Types[lit].Type.Underlying().(*types.Map); isMap {
+		sortRows(got)
+		sortRows(want)
+	}
+	if fmt.Sprint(got) == fmt.Sprint(want) {
+		r.OK("T-SPEC", key, c.Pos(pos), fmt.Sprintf("%d entries equal to %s", len(want), what))
+	} else {
+		r.Bad("T-SPEC", key, c.Pos(pos), fmt.Sprintf("the table differs from %s: have %v, standard %v", what, got, want))
+	}
+}
+
+// ruleElementOwners (O-OWN) — the elements of a slice held in a struct field are written only by the structure's
+// own code: a method of the type, a decoder/parser/constructor named after it, or the function that made the slice.
+// Anything else writes into a decoded (possibly shared, possibly input-aliasing) structure from outside.
+func ruleElementOwners(c *Ctx, r *Report, allowed map[string]string) int {
+	n := 0
+	for _, f := range c.RepoFuncs(IsLib) {
+		if f.Synthetic != "" || strings.HasSuffix(c.Fset.Position(f.Pos()).Filename, "_test.go") {
+			continue
+		}
+		for _, b := range f.Blocks {
+			for _, ins := range b.Instrs {
+				var dst ssa.Value
+				switch x := ins.(type) {
+				case *ssa.Call:
+					if bi, ok := x.Call.Value.(*ssa.Builtin); ok && bi.Name() == "copy" {
+						dst = x.Call.Args[0]
+					}
+				case *ssa.Store:
+					if ia, ok := x.Addr.(*ssa.IndexAddr); ok {
+						dst = ia.X
+					}
+				}
+				if dst == nil {
+					continue
+				}
+				fld := storageField(dst, 0)
+				if fld == "" {
+					continue
+				}
+				n++
+				owner := fld[:strings.Index(fld, ".")]
+				name := SSAFuncName(f)
+				key := name + " -> " + fld
+				base := strings.TrimSuffix(owner, "Box")
+				ok := false
+				why := ""
+				if recv := f.Signature.Recv(); recv != nil && typeName(recv.Type()) == owner {
+					ok, why = true, "method of the owning type"
+				} else if strings.Contains(f.Name(), base) {
+					ok, why = true, "decoder / constructor named after the owning type"
+				} else if mk := sliceOrigin(f, dst, 0); mk != nil {
+					ok, why = true, "the function made the slice itself"
+				} else if w, has := allowed[key]; has {
+					ok, why = true, w
+				}
+				if ok {
+					r.OKOnce("O-OWN", key, c.Pos(ins.Pos()), why)
+				} else {
+					r.BadOnce("O-OWN", key, c.Pos(ins.Pos()), "elements of "+fld+" are overwritten by a function that is neither a method of "+owner+", nor its decoder/constructor, nor the maker of the slice: a decoded structure (possibly shared between goroutines, possibly aliasing the input) is modified from outside")
+				}
+			}
+		}
+	}
+	return n
 }
